@@ -117,6 +117,10 @@ pub fn c13(tier: &str) -> ! {
     let mut cases = if t { table_cases(4, &[1, 16, 64, 256, 4096, 1 << 20], 2) } else { table_cases(3, &[1, 16, 64, 256, 1 << 20], 2) };
     cases.extend(long_run_cases());
     cases.extend(wide_cases());
+    // tables whose blocks start at every residue of the 2 KiB filter ranges (3000-byte values,
+    // 1-byte blocks, and a sweep of the first block's length over a whole range): a point lookup
+    // goes through the filter that belongs to the block's offset
+    cases.extend(filter_table_cases());
     let cases = Arc::new(cases);
     let cursor_len = if t { 3 } else { 3 };
     let shm = Arc::new(Shm::new(1 << 10, 16 << 20));
@@ -142,7 +146,7 @@ pub fn c13(tier: &str) -> ! {
     rep.cov("point_probes", json!(shm.get(C_USER)));
     rep.cov("cursor_steps_checked", json!(shm.get(C_USER + 1)));
     rep.cov("max_blocks_in_a_table", json!(shm.get(C_MAX_FILE_ENTRIES)));
-    rep.cov("rule", json!("one evaluation = one table file built with the real TableBuilder from a sorted entry set (every subset of <= 3 (thorough 4) of 8 boundary user keys {'', 00, a, a00, ab, b, ff, ffff}, each key with one of 5 version patterns of puts/deletes, value sizes from {0,1,100,5000}, max_block_size in {1,16,64,256,1 MiB} (thorough also 4096); plus long runs of 15..100 shared-prefix keys so that blocks hold more entries than the restart interval of 16, block sizes {64,256,1024,1 MiB}; plus keys of length {1,126..129,255,256,16382..16385} that share all but their last byte, with values of length {0,1,127,128,16383,16384,70000}: the boundaries of the varint coding of shared / unshared / value lengths) and read with the real Table: forward and backward iteration equal the entries; for every probe (17 keys incl. separators x every sequence bound 0..n+2 and MAX) seek lands on the first entry not less than the target and get answers Value / Deleted / NotInFile like the vector model; every cursor program of length <= 2 (thorough 3) over {first,last,next,prev,seek(entry)} follows the model cursor. distinct_nontrivial = tables with more than one data block or more than 3 entries"));
+    rep.cov("rule", json!("one evaluation = one table file built with the real TableBuilder from a sorted entry set (every subset of <= 3 (thorough 4) of 8 boundary user keys {'', 00, a, a00, ab, b, ff, ffff}, each key with one of 5 version patterns of puts/deletes, value sizes from {0,1,100,5000}, max_block_size in {1,16,64,256,1 MiB} (thorough also 4096); plus long runs of 15..100 shared-prefix keys so that blocks hold more entries than the restart interval of 16, block sizes {64,256,1024,1 MiB}; plus keys of length {1,126..129,255,256,16382..16385} that share all but their last byte, with values of length {0,1,127,128,16383,16384,70000}: the boundaries of the varint coding of shared / unshared / value lengths; plus the filter-layout tables of C14: 3000-byte values, 1-byte blocks and a sweep of the first block's length over 1900..4148 bytes so that the following blocks start at every residue of the 2 KiB filter ranges) and read with the real Table (Bloom filter policy, 10 bits per key): forward and backward iteration equal the entries; for every probe (17 keys incl. separators x every sequence bound 0..n+2 and MAX) seek lands on the first entry not less than the target and get answers Value / Deleted / NotInFile like the vector model; every cursor program of length <= 2 (thorough 3) over {first,last,next,prev,seek(entry)} follows the model cursor. distinct_nontrivial = tables with more than one data block or more than 3 entries"));
     for c in cases.iter().step_by((cases.len() / 3).max(1)).take(3) {
         rep.cov_push("samples", table_case_json(c));
     }
